@@ -454,3 +454,111 @@ def _dict_ctor(I, args, kw):
 from .exec import Builtin  # noqa
 models._REG['builtins.list'] = Builtin('builtins.list', _list_ctor)
 models._REG['builtins.dict'] = Builtin('builtins.dict', _dict_ctor)
+
+
+# ---------------------------------------------------------------------------
+# strings made of symbolic characters; abstract binary files; struct.pack/unpack
+# ---------------------------------------------------------------------------
+
+class SymStr:
+    """string given as a list of characters (str of length 1 or SymChar)"""
+
+    def __init__(self, chars):
+        self.chars = list(chars)
+
+
+def _str_binop(I, op, a, b):
+    if isinstance(op, ast.Add) and (isinstance(a, (SymChar, SymStr)) or isinstance(b, (SymChar, SymStr))):
+        def chars(x):
+            if isinstance(x, SymStr):
+                return x.chars
+            if isinstance(x, SymChar):
+                return [x]
+            if isinstance(x, str):
+                return list(x)
+            raise Unsupported('string concatenation with %r' % (x,))
+        return SymStr(chars(a) + chars(b))
+    return None
+
+
+models.register_hook('binop', _str_binop)
+models.register_hook('len_', lambda I, x: len(x.chars) if isinstance(x, SymStr) else None)
+models._REG['sys.byteorder'] = 'little'
+models.KNOWN_EXTERNAL.add('types')
+
+
+class FileBytes:
+    def __init__(self, n):
+        self.n = n
+
+
+models.register_hook('len_', lambda I, x: x.n if isinstance(x, FileBytes) else None)
+
+
+def _file_getattr(I, obj, name):
+    from .exec import BoundModel, Obj
+    if not (isinstance(obj, Obj) and obj.tag == 'file'):
+        return None
+    T = 'file object: tell/seek/read move a cursor; read(n) returns n bytes (short reads not modelled)'
+    if name == 'tell':
+        return BoundModel(lambda I, r, a, k: r.ghost['pos'], obj, trusted=T)
+    if name == 'seek':
+        def seek(I, r, a, k):
+            off = a[0]
+            wh = a[1] if len(a) > 1 else 0
+            if wh == 0:
+                r.ghost['pos'] = off
+            elif wh == 1:
+                r.ghost['pos'] = sym.add(r.ghost['pos'], off)
+            else:
+                r.ghost['pos'] = sym.add(r.ghost.get('length', I.ctx.fresh('flen')), off)
+            r.ghost.setdefault('seeks', []).append((off, wh))
+        return BoundModel(seek, obj, trusted=T)
+    if name == 'read':
+        def read(I, r, a, k):
+            n = a[0]
+            r.ghost['pos'] = sym.add(r.ghost['pos'], n)
+            return FileBytes(n)
+        return BoundModel(read, obj, trusted=T)
+    if name in ('close', 'flush'):
+        return BoundModel(lambda I, r, a, k: None, obj)
+    return None
+
+
+models.register_hook('obj_getattr', _file_getattr)
+
+
+def _struct_pack(I, args, kw):
+    I.ctx.ghost.setdefault('struct.pack', []).append((args[0], list(args[1:])))
+    return Opaque('struct.pack(%s)' % args[0])
+
+
+def _struct_unpack(I, args, kw):
+    import struct as _st
+    import re
+    fmt, data = args
+    if not isinstance(fmt, str):
+        raise Unsupported('struct.unpack with symbolic format')
+    out = []
+    for cnt, ch in re.findall(r'(\d*)([a-zA-Z?])', fmt.lstrip('<>=!@')):
+        n = int(cnt) if cnt else 1
+        if ch in 'sp':
+            out.append(Opaque('bytes field'))
+            continue
+        for _ in range(n):
+            if ch in 'fd':
+                out.append(I.ctx.fresh('unpacked_' + ch, 'Real'))
+            elif ch in 'c':
+                out.append(Opaque('char'))
+            else:
+                out.append(I.ctx.fresh('unpacked_' + ch, 'Int'))
+    if isinstance(data, FileBytes):
+        if I.ctx.branch(sym.ne(data.n, _st.calcsize(fmt))):
+            raise PyExc('struct.error')
+    I.ctx.ghost.setdefault('struct.unpack', []).append((fmt, out))
+    return tuple(out)
+
+
+from .exec import Builtin, Opaque  # noqa
+models._REG['struct.pack'] = Builtin('struct.pack', _struct_pack, 'struct.pack: packs its arguments in order according to the format (recorded, bytes opaque)')
+models._REG['struct.unpack'] = Builtin('struct.unpack', _struct_unpack, 'struct.unpack: one value per format item, of unknown content')
